@@ -245,13 +245,30 @@ def s2(prog, rep):
             ok = False
             for r in rs:
                 d, ctx = _reasons(f, r)
-                if set(_canon(a) for a in want) <= d and _canon(("!=", V("eptr"), V("s"))) in ctx:
+                # exactly the bound tests, reached whenever the numeral is well formed: a further condition on the way (say, "only for
+                # finite values") lets values through that are out of range.  Conditions about the numeral's shape and the bounds
+                # themselves are the expected context; anything computed from the value by a call is not
+                def expected(a):
+                    vs = set(t[1] for t in list(subterms(a[1])) + list(subterms(a[2])) if isinstance(t, tuple) and t and t[0] == "v")
+                    if any(isinstance(t, tuple) and t and t[0] == "call" for t in list(subterms(a[1])) + list(subterms(a[2]))):
+                        return False
+                    if vs <= {"eptr", "s", "trailing"}:
+                        return True                     # the numeral's shape
+                    return "val" in vs and len(vs) == 2 and vs <= {"val", "min", "max", "typemax"}      # the other bound tests of the chain
+                narrowing = [a for a in ctx if not expected(a)]
+                if set(_canon(a) for a in want) == d and _canon(("!=", V("eptr"), V("s"))) in ctx and not narrowing:
                     ok = True
                     break
         rep.check(ok, "S2-sibling", "%s: ERANGE on val < min || val > max%s, only for a well-formed numeral" % (name, " || val > typemax" if has_typemax else ""),
                   rs[0].where if rs else f.loc, "edges into the store: %s" % sorted(map(str, d)), function=name, construct="erange")
         rets = [strip_ids(norm(r.kid(0))) for r in f.returns()]
         rep.check(rets == [V("val")], "S2-sibling", "%s returns the converted value" % name, f.loc, "%s" % rets, function=name, construct="ret")
+        # the conversion's own verdict survives: strto* report a numeral beyond the widest type by saturating and setting ERANGE;
+        # these functions add verdicts (EINVAL, ERANGE) and never take one away
+        other = sorted(k for k in stores if k not in (EINVAL, ERANGE))
+        rep.check(not other, "S2-sibling", "%s stores only EINVAL or ERANGE into errno" % name, (stores[other[0]][0].where if other else f.loc),
+                  "errno = %s: a verdict the conversion itself has set (ERANGE for a numeral beyond the widest type, reported by saturation) would be erased" % other,
+                  function=name, construct="errno-values")
     # the macro clears errno before the conversion and reports errno != 0
     n = 0
     for f in host.funcs:
